@@ -201,9 +201,26 @@ def counter_scripts(R, thorough):
                     h = {"id": R.next_id(), "cls": "hash", "alg": alg, "api": "dyn", "outlen": hc.BLAKE[alg][1], "key": vlib.prng_bytes(R.seed, "c20k", kl),
                          "ev": [{"op": "new"}, {"op": "set_counter", "x": 1, "t0": limbs(t0), "t1": limbs(t1)}, {"op": "update_mut", "x": 1, "data": data[: n // 2]},
                                 {"op": "clone", "x": 1, "y": 2}, {"op": "update_mut", "x": 1, "data": data[n // 2:]}, {"op": "finalize", "x": 1},
-                                {"op": "finalize_reset", "x": 2}]}
+                                # the recycled context starts again from a zero counter (both words), whichever call re-initialised it
+                                {"op": "clone", "x": 2, "y": 3}, {"op": "finalize_reset", "x": 2}, {"op": "update_mut", "x": 2, "data": data[:7]}, {"op": "finalize", "x": 2},
+                                {"op": "update_mut", "x": 3, "data": data[n // 2:]}, {"op": "reset" if kl == 0 else "reset_with_key", "x": 3, "key": vlib.prng_bytes(R.seed, "c20k2", 5)},
+                                {"op": "update_mut", "x": 3, "data": data[:9]}, {"op": "finalize", "x": 3}]}
                     hs.append(h)
                     R.count(("ctr", alg, t0 % 997, t1 % 997, n, kl))
+    # ---- Merkle-Damgard length counters (u64 bytes for SHA-1 / SHA-256 / RIPEMD-160 families, u128 for SHA-512): preset next to the points where
+    # the bit length crosses a word (2^29, 2^32 bytes) and at the top of the documented domain (messages below 2^64 resp. 2^128 bits)
+    offs64 = [(1 << 29) - 64, (1 << 29) - 1, 1 << 29, (1 << 32) - 64, (1 << 32) - 1, 1 << 32, (1 << 40) + 3, (1 << 61) - 256]
+    offs128 = offs64 + [(1 << 61) - 128, 1 << 61, (1 << 64) - 128, (1 << 64) - 1, 1 << 64, 1 << 93, (1 << 125) - 512]
+    for alg in hc.MD:
+        b = hc.MD[alg][0]
+        for oi, off in enumerate(offs128 if b == 128 else offs64):
+            for n in ([0, 1, b - hc.MD[alg][1] - 1, b - 1, b + 1, 3 * b] if thorough else [(0, b - 1, 3 * b + 1)[oi % 3]]):
+                data = vlib.prng_bytes(R.seed, "c20len/%s/%d" % (alg, n), n)
+                hs.append({"id": R.next_id(), "cls": "hash", "alg": alg,
+                           "ev": [{"op": "new"}, {"op": "set_length", "x": 1, "off": list(off.to_bytes(16, "little"))}, {"op": "update_mut", "x": 1, "data": data},
+                                  {"op": "clone", "x": 1, "y": 2}, {"op": "finalize", "x": 1}, {"op": "finalize_reset", "x": 2}, {"op": "update_mut", "x": 2, "data": data[:7]},
+                                  {"op": "finalize", "x": 2}]})
+                R.count(("len", alg, off.bit_length(), n))
     # ---- cipher block counters
     for variant, (nl, keylens, wide) in sc.VARIANTS.items():
         for rounds in (20, 8):
@@ -280,9 +297,9 @@ def run(R):
                 R.count((m, r["id"]))
     R.rule = ("S: every shape of ApiDomain.Shapes (%d; per entry point: each length / count / parameter one below and one above its legal values, zero, large) as one call "
               "sequence x 3 profiles, outcome class by TraceApi, values by the functional trace specs, lock-step by TraceEquiv; K: BLAKE2b/s counter presets "
-              "{2^w-B, 2^w-1 (+high), 2^w-B-1, 2^w-2B with high 2^w-2, high 2^w-1, 2^32 boundary} x lengths x keyed/unkeyed and cipher counters at the 2^32 boundary "
+              "{2^w-B, 2^w-1 (+high), 2^w-B-1, 2^w-2B with high 2^w-2, high 2^w-1, 2^32 boundary} x lengths x keyed/unkeyed and cipher counters at the 2^32 boundary; SHA-1 / SHA-2 / RIPEMD-160 processed-bytes counts preset at {2^29, 2^32, 2^61, (SHA-512: 2^64, 2^125)} +- "
               "x 3 profiles; W: quick workloads of " + ",".join(mods) + " x 3 profiles in lock-step") % len(shapes)
     R.assumptions += ["outputs of messages long enough to reach a counter boundary without the preset hooks (>= 4 GiB) are not produced; the boundary is reached through the hooks",
-                      "hash length counters (u64 / u128 bytes) cannot be brought near their limit: no hook, and the limit is 2^61 bytes",
+                      "hash length counters are preset through a hook (a 512 MiB message cannot be validated by TLC); SHA-3 / Keccak keep no length",
                       "an input that would take a counter past its total range (2^64 bytes for BLAKE2s, 2^128 for BLAKE2b) is outside the documented domain and not exercised",
                       "parameter ranges the crate documents as unchecked (Argon2 salt < 8, tag < 4, memory raised silently) are outside the property"]
